@@ -34,8 +34,8 @@ RTOL = ATOL = 1e-6
 TMAX, TMIN = 10.0, 0.01
 # flux mismatch allowed, relative to the larger flux:  K_FLUX * delta * gamma_+^2 gamma_-^2,
 # delta = rtol + atol/T the relative accuracy requested from the root finders.  Calibrated on
-# the unchanged tree (see report): worst observed ratio 3.2 -> margin factor ~8
-K_FLUX = 8.0
+# the unchanged tree (see report): worst ratio mismatch/(delta g+^2 g-^2) observed = 4.5 (thorough tier, 2536 matchings; detonation at vw=0.737): margin factor 3.3
+K_FLUX = 15.0
 
 
 # ------------------------------------------------------------------------------------
@@ -349,7 +349,7 @@ GENERIC_KEY = {"energy-flux": "flux-mismatch", "momentum-flux": "flux-mismatch",
                "fallback": "template-fallback-exact-exists"}
 
 
-def failure_key(h, vw, kind, fallback):
+def failure_key(h, vw, kind, fallback, success=True):
     """key of a failure class for known_findings.json. Two recorded findings live in the
     corner vMin == vBracketLow (=1e-3), vw < 1.5 vBracketLow:
       slow-wall-unconverged-accepted  hybr stalls (status 5) and the absolute acceptance rule
@@ -364,6 +364,11 @@ def failure_key(h, vw, kind, fallback):
     if corner and not fallback and kind in ("energy-flux", "momentum-flux", "c1", "c2",
                                             "not-converged"):
         return "slow-wall-unconverged-accepted"
+    if not success and not fallback and kind in ("energy-flux", "momentum-flux", "c1", "c2",
+                                                  "not-converged", "range"):
+        # findMatching never looks at self.success: the result of a 2x2 solve that did not
+        # converge is returned as a matching
+        return "unconverged-matching-returned"
     return GENERIC_KEY.get(kind, kind)
 
 
@@ -372,6 +377,9 @@ RECORDED = [   # inputs of the recorded findings, replayed first on every run
     (dict(kind="2step", abrok=0.2, asym=0.1, musq=0.4, Tn0=0.9, unit=1.0), 0.001),
     (dict(kind="2step", abrok=0.261, asym=0.148, musq=0.419, Tn0=0.73, unit=25.0),
      0.0010011),
+    # unconverged 2x2 solve returned as a matching (hybrid 0.03% below vJ)
+    (dict(kind="template", alN=0.19354, psiN=0.571, cb2=0.202, cs2=0.3301, Tn=138.8),
+     0.6952983303589946),
 ]
 
 
@@ -506,7 +514,7 @@ def check_point(ctx, case, th, h, vw, stats=None):
             bad = ("Hydrodynamics.success is False after findMatching(vw=%.6g) inside "
                    "[vMin, 0.99]" % vw, "not-converged")
     if bad:
-        bad = (bad[0], failure_key(h, vw, bad[1], spy.fallback))
+        bad = (bad[0], failure_key(h, vw, bad[1], spy.fallback, bool(success)))
     if bad:
         label.update(what_fails=bad[0], fluxes=[e1, e2, m1, m2], boundaries=[c1, c2],
                      fallback=spy.fallback, success=bool(success))
